@@ -84,7 +84,9 @@ def evaluator(ctx: core.Ctx, ex: campaign.Executed, collect_fail):
                     probs.append((codec_eval.exc_kind(r["line"]), r["line"][:160]))
                 else:
                     svc = {x.fixed_port_id for x in L.top if isinstance(x, pydsdl.ServiceType) and x.has_fixed_port_id and inner(ct).full_name.rsplit('.', 1)[0] == x.full_name and inner(ct).version == x.version}
-                    probs += check_meta(ct, lang, parse_M(r["line"]), svc)
+                    from ..emit_c import service_of
+
+                    probs += check_meta(ct, lang, parse_M(r["line"]), svc, service_of(ct, L.top) if inner(ct).has_parent_service else None)
                 nontrivial = bool(t.constants) or not isinstance(ct, pydsdl.StructureType) or ct.has_parent_service
                 ctx.case(("c05m", str(ct), key), nontrivial, sample={"type": str(ct), "target": key, "probe": r.get("line", "")[:160]}, classes=["meta." + lang] + [f"const.{type(c.data_type).__name__}" for c in t.constants[:3]])
             elif case["op"] == "S":
@@ -112,12 +114,14 @@ def evaluator(ctx: core.Ctx, ex: campaign.Executed, collect_fail):
                 collect_fail(f"C05|{lang}|{kind}", f"type {ct} target {key} case {codec_eval._short(case, 120)}: {detail}", ex, ci, [key])
 
 
-def check_meta(ct, lang: str, m: typing.Dict[str, str], service_port_ids=None) -> typing.List[typing.Tuple[str, str]]:
+def check_meta(ct, lang: str, m: typing.Dict[str, str], service_port_ids=None, service=None) -> typing.List[typing.Tuple[str, str]]:
     t = inner(ct)
-    if m.get("fixed_port_id") == "none":  # the Python probe says so explicitly when the class has no _FIXED_PORT_ID_
+    if m.get("fixed_port_id") == "none":  # the probe says so explicitly when the type exports no port-ID
         m = {k: v for k, v in m.items() if k != "fixed_port_id"}
         if t.has_fixed_port_id and not t.has_parent_service:
             return [("fixed-port-id", f"no fixed port-ID exported, the DSDL definition gives {t.fixed_port_id}")]
+    if m.get("svc.fixed_port_id") == "none":
+        m = {k: v for k, v in m.items() if k != "svc.fixed_port_id"}
     out: typing.List[typing.Tuple[str, str]] = []
     maxb = (t.bit_length_set.max + 7) // 8
     ext = ct.extent // 8
@@ -150,10 +154,26 @@ def check_meta(ct, lang: str, m: typing.Dict[str, str], service_port_ids=None) -
             expect("fixed_port_id", t.fixed_port_id, "fixed-port-id")
         elif "fixed_port_id" in m:
             out.append(("fixed-port-id", f"exported {m['fixed_port_id']} for a type without fixed port-ID"))
-    elif "fixed_port_id" in m:
-        # request / response classes carry the port-ID of their service
-        if not service_port_ids or int(m["fixed_port_id"]) not in service_port_ids:
-            out.append(("fixed-port-id", f"request/response exports {m['fixed_port_id']}, the service has {sorted(service_port_ids or [])}"))
+    else:
+        # request / response types have no port-ID of their own in the DSDL model; the SERVICE's ID must be exported somewhere
+        # for the service (C: service-level macros; C++: only the request/response traits; Python: service class, repeated
+        # by the nested classes) and every place that exports one must export the service's
+        svc = service
+        if svc is None:
+            raise core.HarnessError(f"no service found for {t}")
+        exported = [m[k] for k in ("fixed_port_id", "svc.fixed_port_id") if k in m and m[k] != "none"]
+        if "svc.has_fixed_port_id" in m and str(m["svc.has_fixed_port_id"]) != str(int(svc.has_fixed_port_id)):
+            out.append(("has-fixed-port-id", f"service-level has_fixed_port_id={m['svc.has_fixed_port_id']} but the DSDL definition gives {int(svc.has_fixed_port_id)}"))
+        if "svc.full_name_and_version" in m and m["svc.full_name_and_version"] != f"{svc.full_name}.{svc.version.major}.{svc.version.minor}":
+            out.append(("full-name-and-version", f"service-level name {m['svc.full_name_and_version']} but the DSDL definition gives {svc.full_name}.{svc.version.major}.{svc.version.minor}"))
+        if svc.has_fixed_port_id:
+            if not exported:
+                out.append(("fixed-port-id", f"the fixed port-ID {svc.fixed_port_id} of service {svc} is not exported anywhere (service level and request/response level probed: { {k: v for k, v in m.items() if 'port' in k} })"))
+            for v in exported:
+                if int(v) != svc.fixed_port_id:
+                    out.append(("fixed-port-id", f"request/response or service level exports {v}, the service has {svc.fixed_port_id}"))
+        elif exported:
+            out.append(("fixed-port-id", f"exported {exported} for a service without fixed port-ID"))
     for c in t.constants:
         key = f"const.{c.name}"
         if key not in m:
